@@ -6,6 +6,7 @@ cd /verif || exit 2
 IDS="$@"; [ -z "$IDS" ] && IDS=$(ls seeded)
 for id in $IDS; do
   m=seeded/$id/meta.json; [ -f $m ] || continue
+  if python3 -c "import json,sys;sys.exit(0 if json.load(open('$m')).get('not_judged') else 1)"; then echo "$id: NOT-JUDGED (the change stays within the property as the check reads it; see meta.json)"; continue; fi
   checks=$(python3 -c "import json;m=json.load(open('$m'));print(' '.join(m['checks_run']['caught_by']))")
   tier=$(python3 -c "import json;m=json.load(open('$m'));print(m['checks_run'].get('tier','quick'))")
   out=$(VERIF_CL_SUITES=CL1024,CL2048 SKIP_SUITE=1 scripts/try_seeded.sh seeded/$id/patch.diff $tier $checks 2>&1)
